@@ -69,7 +69,11 @@ def run(ctx):
 
     def known_key(c, got):
         if c.get("_sep") == "-" and c.get("_order", "").endswith("Y") and c.get("_y") in neg and not c.get("_time"):
-            return {"rule": "dash-separated year-last date whose year spells a negative UTC offset"}
+            # the recorded defect produces exactly: the year popped as UTC-HH:MM (result aware at that offset, year from the reference)
+            yy = c["_y"]
+            off = -(int(yy[:2]) * 3600 + int(yy[2:]) * 60)
+            if isinstance(got, str) and not got.startswith("ERR:") and got.split("|")[1] in (str(off), "0") and got.startswith("2022-"):
+                return {"rule": "dash-separated year-last date whose year spells a negative UTC offset"}
         return None
     res = decide(ctx, cases, model_share=0.35 if tier == "quick" else 0.1, known_key=known_key)
     return res
